@@ -160,6 +160,9 @@ class Gen:
         """any operand: a raw number, a raw str or an Expr"""
         rng = self.rng
         r = rng.random()
+        if rng.random() < 0.03:       # Constant() / Constant.fk('c'): `trivially_zero` of a Constant without arguments raises TypeError
+            return ({'t': 'new', 'k': {'c': 'Constant'}, 'args': None, 'uk': rng.choice([None, ['c']])},
+                    'Q' if self.mode == 'rat' else 'F')
         if r < 0.3:
             v, ty = self.number()
             if self.mode == 'rat' and ty == 'Q' and rng.random() < 0.9:
@@ -365,6 +368,11 @@ class Gen:
             return self.new('EyringHS', args, 'F')
         if c == 'SinTemp':
             self.var('time')
+            if rng.random() < 0.04:      # angvel * time overflows to inf: math.sin(inf) is ValueError
+                args = [({'t': 'num', 'v': 1.0}, 'F'), ({'t': 'num', 'v': 1.0}, 'F'), ({'t': 'num', 'v': rng.choice([1e308, -1e308])}, 'F'),
+                        ({'t': 'num', 'v': 0.0}, 'F')]
+                self.vars['time'] = float('%.6g' % rng.uniform(10, 100))
+                return self.new('SinTemp', args, 'F', p_over=0.0)
             # plain O(1) numbers, no unique keys: sin of a huge argument is ill-conditioned
             args = [({'t': 'num', 'v': float('%.6g' % (rng.uniform(0.1, 5) * rng.choice([1, 1, -1])))}, 'F') for _ in range(4)]
             return self.new('SinTemp', args, 'F', p_over=0.0)   # raw numbers: sin of a huge argument is ill-conditioned
@@ -419,6 +427,11 @@ class Gen:
         if o == 'pow':
             return self.power(a, ta, depth)
         b, tb = self.operand(depth - 1, q2)
+        if o == 'sub' and self.mode == 'rat' and rng.random() < 0.06:
+            # y - _MulExpr([Fraction, ...]): `other == other*0` compares the bare Fraction with an Expr -> NotImplementedError
+            b = {'t': 'new', 'k': {'c': 'Mul'}, 'args': {'l': [{'t': 'num', 'v': rat_json(self.q()) if rng.random() < 0.7 else 3},
+                 self.leaf_pos()[0]]}, 'uk': None}
+            tb = 'Q'
         if o == 'add' and rng.random() < 0.06:
             z0 = rng.random() < 0.5
             b = {'t': 'new', 'k': {'c': 'Mul'}, 'args': {'l': [{'t': 'num', 'v': (3 if self.mode == 'rat' else 3.0)},
@@ -779,8 +792,10 @@ class C16(Property):
         'instantiation of the model is never used in a theorem',
         'ArrheniusParam(A, Ea)(T) / EyringParam(dH, dS)(T) dispatching to arrhenius_equation / eyring_equation, the constants= / units= paths '
         '(R = constants.molar_gas_constant, ArrheniusParamWithUnits, EyringParamWithUnits) and Reaction(..., ParamSet).rate(vars): oracle only',
-        'closed formulas of Radiolytic, RampedTemp, SinTemp, Log10, Exp, EyringHS, GibbsEqConst, MassActionEq: their bodies in Model/Expr.call are '
-        'hand transcriptions tied to the source by the *_guard theorems (regenerated source text) and by the correspondence; no separate spec theorem',
+        'the class bodies in Model/Expr.call are hand transcriptions tied to the source by the *_guard theorems (regenerated normalised source '
+        'text) and by the correspondence, not extracted; the spec theorems (eyringHS_spec, radiolytic_spec, gibbs_spec, '
+        'temperature_programs_spec, exp_log10_spec, ...) are about stored numeric arguments without unique keys',
+        'the @skipped hash of the signature records (units / constants branches of arrhenius.py, eyring.py) is not pinned by a theorem',
         'override of a defaulted or of a nested-expression argument (override_replaces_exactly is stated for stored numeric arguments)',
         'named overrides under arithmetic composition: that an override still replaces exactly its own argument inside arbitrary trees '
         '(+ - * / ** neg, reflected) is decided by the oracle (wrapper_case) and the correspondence; the theorems cover all_args of one '
@@ -1083,6 +1098,11 @@ class C16(Property):
             for side in ('a', 'b'):        # a Fraction is the harness' exactness device, not an int/float: no claim for it as a bare operand
                 if side in p and p[side]['t'] == 'num' and isinstance(p[side]['v'], Fraction):
                     raise Skip('bare Fraction operand')
+            if p['o'] == 'sub':
+                qb = _strip(p['b'])
+                if qb['t'] == 'new' and qb['k']['c'] == 'Mul' and qb['args'] and 'l' in qb['args'] and qb['args']['l'] \
+                        and qb['args']['l'][0]['t'] == 'num' and isinstance(qb['args']['l'][0]['v'], Fraction):
+                    raise Skip('x - _MulExpr([Fraction, ...]): the Fraction (harness device) meets _implicit_conversion in Expr.__eq__')
             if p['o'] in ('sub', 'mul', 'div'):
                 for side in ('a', 'b'):     # UnaryWrapper: "can only be used when unique_keys are None" (documented ValueError)
                     q = _strip(p[side])
@@ -1167,9 +1187,9 @@ class C16(Property):
         if t == 'eyrp':
             if p['uk'] is not None and len(p['uk']) > 3:
                 raise Skip('more unique keys than arguments: refused by Expr.__init__')
-            c0, c1 = arguments(2, [lambda: KB_OVER_H * be.exp(p['dS'] / R_GAS), lambda: p['dH'] / R_GAS], p['uk'], None)
-            order()
-            return c0 * V('temperature') * be.exp(-c1 / V('temperature')) * concprod()
+            # Eyring has three arguments: a third unique key overrides conc0 (default 1 molar)
+            c0, c1, conc0 = arguments(3, [lambda: KB_OVER_H * be.exp(p['dS'] / R_GAS), lambda: p['dH'] / R_GAS, lambda: 1], p['uk'], None)
+            return c0 * V('temperature') * be.exp(-c1 / V('temperature')) * conc0 ** (1 - order()) * concprod()
         assert t == 'new'
         k = p['k']
         c = k['c']
